@@ -303,6 +303,146 @@ Section SatP.
     eexists. split; [reflexivity|]. unfold Sat.tree_field. rewrite (r_entries_relations_from es E3). exact E2.
   Qed.
 
+  (* ---------------- set_version (fixed code) writes what version() reads back ------------- *)
+  Lemma replace_first_find {A} (p : A -> bool) new (l l' : list A) :
+    replace_first p new l = Some l' -> p new = true -> find p l' = Some new.
+  Proof.
+    revert l'. induction l as [|x r IH]; intros l' H Hn; cbn [replace_first] in H; [discriminate|].
+    destruct (p x) eqn:E.
+    - injection H as <-. cbn [find]. rewrite Hn. reflexivity.
+    - destruct (replace_first p new r) as [r'|]; [|discriminate]. injection H as <-.
+      cbn [find]. rewrite E. apply IH; [reflexivity|exact Hn].
+  Qed.
+
+  Lemma replace_first_find_other {A} (p q : A -> bool) new (l l' : list A) :
+    replace_first p new l = Some l' -> (forall x, p x = true -> q x = false) -> q new = false ->
+    find q l' = find q l.
+  Proof.
+    revert l'. induction l as [|x r IH]; intros l' H Hpq Hn; cbn [replace_first] in H; [discriminate|].
+    destruct (p x) eqn:E.
+    - injection H as <-. cbn [find]. rewrite Hn, (Hpq x E). reflexivity.
+    - destruct (replace_first p new r) as [r'|]; [|discriminate]. injection H as <-.
+      cbn [find]. destruct (q x); [reflexivity|]. apply IH; [reflexivity|exact Hpq|exact Hn].
+  Qed.
+
+  Lemma replace_first_none {A} (p : A -> bool) new (l : list A) :
+    replace_first p new l = None -> forall x, In x l -> p x = false.
+  Proof.
+    induction l as [|y r IH]; intros H x Hx; [destruct Hx|]. cbn [replace_first] in H.
+    destruct (p y) eqn:E; [discriminate|].
+    destruct (replace_first p new r); [discriminate|].
+    destruct Hx as [<-|Hx]; [exact E|apply IH; [reflexivity|exact Hx]].
+  Qed.
+
+  Lemma insert_after_first_find {A} (q : A -> bool) ins (l l' : list A) :
+    insert_after_first q ins l = Some l' -> find q l' = find q l.
+  Proof.
+    revert l'. induction l as [|x r IH]; intros l' H; cbn [insert_after_first] in H; [discriminate|].
+    destruct (q x) eqn:E.
+    - injection H as <-. cbn [find]. rewrite E. reflexivity.
+    - destruct (insert_after_first q ins r) as [r'|]; [|discriminate]. injection H as <-.
+      cbn [find]. rewrite E. apply IH. reflexivity.
+  Qed.
+
+  Lemma insert_after_first_find_new {A} (p q : A -> bool) w new (l l' : list A) :
+    insert_after_first q [w; new] l = Some l' -> (forall x, In x l -> p x = false) ->
+    p w = false -> p new = true -> find p l' = Some new.
+  Proof.
+    revert l'. induction l as [|x r IH]; intros l' H Hl Hw Hn; cbn [insert_after_first] in H; [discriminate|].
+    assert (Hx : p x = false) by (apply Hl; left; reflexivity).
+    destruct (q x).
+    - injection H as <-. cbn [find app]. rewrite Hx, Hw, Hn. reflexivity.
+    - destruct (insert_after_first q [w; new] r) as [r'|]; [|discriminate]. injection H as <-.
+      cbn [find]. rewrite Hx. apply IH; [reflexivity| |exact Hw|exact Hn].
+      intros y Hy. apply Hl. right. exact Hy.
+  Qed.
+
+  Lemma insert_after_first_none {A} (q : A -> bool) ins (l : list A) :
+    insert_after_first q ins l = None -> find q l = None.
+  Proof.
+    induction l as [|x r IH]; intros H; [reflexivity|]. cbn [insert_after_first] in H. cbn [find].
+    destruct (q x); [discriminate|]. destruct (insert_after_first q ins r); [discriminate|]. apply IH. reflexivity.
+  Qed.
+
+  Lemma constraint_tokens_text vc : texts (constraint_tokens vc) = show_vop vc.
+  Proof. destruct vc; reflexivity. Qed.
+
+  (* whatever the relation looked like: after set_version(Some((vc, v))) its name is unchanged
+     and version() returns (vc, v) *)
+  Theorem set_version_view (r : rtree) n vc v :
+    is_node r = true -> first_ident r = Some n -> vparse (vshow v) = Some v ->
+    tree_rel (set_version_some V vshow (@constraint_tokens) r vc v) = Ok (mk_rel n (Some (vc, v))) /\
+    is_node_of (ekind r) (set_version_some V vshow (@constraint_tokens) r vc v) = true.
+  Proof.
+    destruct r as [k s|k cs]; [discriminate|]. intros _ Hn Hv.
+    set (new := version_node V vshow (constraint_tokens vc) v).
+    assert (Hres : forall cs', find (is_tok_of IDENT) cs' = find (is_tok_of IDENT) cs ->
+                               find (is_node_of VERSION) cs' = Some new ->
+                               tree_rel (Node k cs') = Ok (mk_rel n (Some (vc, v)))).
+    { intros cs' H1 H2. unfold Sat.tree_rel, ll_name, first_ident in *. cbn [children] in *.
+      rewrite H1. destruct (find (is_tok_of IDENT) cs) as [tk|]; [|discriminate]. injection Hn as Hn.
+      rewrite Hn. cbn [bind]. unfold ll_version. cbn [children]. rewrite H2.
+      subst new. unfold version_node at 1 2. cbn [children find is_node_of is_tok_of rkind_eqb rkind_code N.eqb Pos.eqb].
+      unfold first_ident. cbn [children find is_node_of is_tok_of rkind_eqb rkind_code N.eqb Pos.eqb].
+      rewrite text_node, constraint_tokens_text, parse_show_vop, text_tok, Hv. reflexivity. }
+    assert (Hk : forall cs', is_node_of (ekind (Node k cs)) (Node k cs') = true).
+    { intros cs'. cbn. unfold rkind_eqb. apply N.eqb_refl. }
+    cbn [set_version_some]. fold new.
+    destruct (replace_first (is_node_of VERSION) new cs) as [cs'|] eqn:E1.
+    - split; [|apply Hk]. apply Hres.
+      + eapply replace_first_find_other; [exact E1| |reflexivity].
+        intros x Hx. destruct x; [discriminate|reflexivity].
+      + eapply replace_first_find; [exact E1|reflexivity].
+    - pose proof (replace_first_none _ _ _ E1) as Hnone.
+      destruct (insert_after_first (is_tok_of IDENT) [Tok WHITESPACE [32%N]; new] cs) as [cs'|] eqn:E2.
+      + split; [|apply Hk]. apply Hres.
+        * eapply insert_after_first_find. exact E2.
+        * eapply insert_after_first_find_new; [exact E2|exact Hnone|reflexivity|reflexivity].
+      + apply insert_after_first_none in E2. unfold first_ident in Hn. cbn [children] in Hn.
+        rewrite E2 in Hn. discriminate.
+  Qed.
+
+  Lemma relation_new_named n o : exists t,
+    relation_new V vshow n o = Ok t /\ is_node t = true /\ ekind t = RELATION /\ first_ident t = Some n.
+  Proof.
+    destruct o as [[vc v]|].
+    - unfold relation_new. destruct (one_char_toks vc) as (cts & E & _). rewrite E. cbn [bind].
+      eexists. repeat split.
+    - eexists. repeat split.
+  Qed.
+
+  Lemma sv_relation_view b (r : rel) : rel_roundtrips r ->
+    exists t, sv_relation V vshow (@constraint_tokens) b r = Ok t /\ tree_rel t = Ok r /\ is_node_of RELATION t = true.
+  Proof.
+    destruct r as [n [[vc v]|]]; unfold rel_roundtrips, sv_relation; cbn [r_name r_ver]; intros H.
+    - destruct (relation_new_named n (if b then Some (OpEq, v) else None)) as (t & Et & Hnode & Hkind & Hname).
+      rewrite Et. cbn [rmap bind]. eexists. split; [reflexivity|].
+      destruct (set_version_view t n vc v Hnode Hname H) as [H1 H2]. rewrite Hkind in H2. split; assumption.
+    - apply (relation_new_view (mk_rel n None)). exact I.
+  Qed.
+
+  Theorem sv_field_view (f : field) : Forall (Forall rel_roundtrips) f ->
+    exists t, sv_field V vshow (@constraint_tokens) f = Ok t /\ tree_field t = Ok f.
+  Proof.
+    intros H. unfold sv_field.
+    assert (Hent : forall e, Forall rel_roundtrips e -> forall b,
+              exists rs, sv_relations V vshow (@constraint_tokens) b e = Ok rs /\
+                         mapM tree_rel rs = Ok e /\ forallb (is_node_of RELATION) rs = true).
+    { intros e He. induction He as [|r e Hr He IH]; intros b; [exists []; repeat split; reflexivity|].
+      destruct (sv_relation_view b r Hr) as (t & Et & Vt & Kt). destruct (IH (negb b)) as (rs & E1 & E2 & E3).
+      exists (t :: rs). cbn [sv_relations mapM forallb]. rewrite Et, Vt, Kt. cbn [bind]. rewrite E1, E2, E3.
+      repeat split; reflexivity. }
+    assert (Hes : exists es, mapM (fun e => rmap entry_from (sv_relations V vshow (@constraint_tokens) false e)) f = Ok es /\
+                             mapM tree_entry es = Ok f /\ forallb (is_node_of ENTRY) es = true).
+    { induction H as [|e f He Hf IH]; [exists []; repeat split; reflexivity|].
+      destruct (Hent e He false) as (rs & R1 & R2 & R3). destruct IH as (es & E1 & E2 & E3).
+      exists (entry_from rs :: es). cbn [mapM forallb]. rewrite R1. cbn [rmap bind]. rewrite E1. cbn [bind].
+      unfold Sat.tree_entry at 1. rewrite (r_relations_entry_from rs R3), R2. cbn [bind]. rewrite E2, E3.
+      repeat split; reflexivity. }
+    destruct Hes as (es & E1 & E2 & E3). rewrite E1. cbn [rmap bind].
+    eexists. split; [reflexivity|]. unfold Sat.tree_field. rewrite (r_entries_relations_from es E3). exact E2.
+  Qed.
+
   (* ---------------- trees outside the finding class have a typed view ---------------- *)
   (* what Relation::version looks at *)
   Definition version_parts (r : rtree) : option (rtree * str) :=
@@ -456,3 +596,163 @@ Section SatP.
     destruct (cmp v' w); cbn; congruence.
   Qed.
 End SatP.
+
+(* ------------------------------------------------------------------ debversion::Version *)
+From Coq Require Import String Ascii.
+(* test strings for Examples *)
+Fixpoint s2l (s : string) : str :=
+  match s with EmptyString => [] | String a r => N_of_ascii a :: s2l r end.
+
+Definition deb_ok (v : version) : Prop := ver_safe v = true.
+Definition deb_tree_field := tree_field version parse_version.
+
+Theorem deb_sat_spec t f pv :
+  deb_tree_field t = Ok f -> field_dom version deb_ok f -> lookup_dom version deb_ok pv ->
+  deb_ll_sat t pv = Ok (deb_spec (lookup_version pv) f) /\
+  deb_lossy_sat f pv = Ok (deb_spec (lookup_version pv) f).
+Proof.
+  intros Ht Hf Hp. split.
+  - apply (ll_spec version ver_cmp parse_version DebVersion.vcmp deb_ok ver_cmp_safe t f pv Ht Hf Hp).
+  - apply (lossy_spec version ver_cmp DebVersion.vcmp deb_ok ver_cmp_safe f pv Hf Hp).
+Qed.
+
+(* the unguarded statement is false for debversion 0.4.4: a digit run above i32::MAX *)
+Definition big_version : version := mk_version None (s2l "0~20240101123456") None.
+Lemma deb_i32_witness :
+  let f := [[mk_rel (s2l "a") (Some (OpGe, mk_version None (s2l "0~2024") None))]] in
+  let pv := LPair (s2l "a") big_version in
+  ver_safe big_version = false /\
+  parse_version (s2l "0~20240101123456") = Some big_version /\
+  deb_lossy_sat f pv = Panic 2%N /\
+  deb_spec (lookup_version pv) f = true.
+Proof. vm_compute. repeat split; reflexivity. Qed.
+
+(* an operator that is none of the five: the strict reader accepts the field, the evaluator panics *)
+Lemma deb_nonstandard_operator_witness :
+  let s := s2l "a (> 1)" in
+  exists t, relations_from_str s = Ok t /\
+            Known_nonstandard_operator t /\
+            names_present t /\ versions_readable version parse_version t /\
+            deb_ll_sat t (LFn (fun _ => parse_version (s2l "2"))) = Panic 11%N.
+Proof.
+  cbv zeta.
+  let x := eval vm_compute in (relations_from_str (s2l "a (> 1)")) in
+  match x with Ok ?t => exists t; split; [vm_compute; reflexivity|] end.
+  match goal with |- Known_nonstandard_operator ?t /\ _ =>
+    let a := eval vm_compute in (alternatives t) in
+    assert (Ha : alternatives t = a) by (vm_compute; reflexivity) end.
+  unfold Known_nonstandard_operator, names_present, versions_readable. rewrite Ha.
+  split; [|split; [|split]].
+  - eexists _, _, _. split; [left; reflexivity|]. split; vm_compute; reflexivity.
+  - intros r [<-|[]]. vm_compute. discriminate.
+  - intros r cn vt [<-|[]] E. vm_compute in E. injection E as <- <-. vm_compute. discriminate.
+  - vm_compute. reflexivity.
+Qed.
+
+(* set_version before the fix: GreaterThan / LessThan written with one character *)
+Lemma deb_set_version_before_fix_refuted :
+  exists one two t,
+    parse_version (s2l "1") = Some one /\ parse_version (s2l "2") = Some two /\
+    deb_sv_field_before_fix [[mk_rel (s2l "a") (Some (OpGt, one))]] = Ok t /\
+    text t = s2l "a (> 1)" /\
+    deb_ll_sat t (LPair (s2l "a") two) = Panic 11%N /\
+    deb_spec (lookup_version (LPair (s2l "a") two)) [[mk_rel (s2l "a") (Some (OpGt, one))]] = true.
+Proof.
+  eexists _, _, _. split; [vm_compute; reflexivity|]. split; [vm_compute; reflexivity|].
+  split; [vm_compute; reflexivity|]. repeat split; vm_compute; reflexivity.
+Qed.
+
+(* ------------------------------------------------------------------ statements assembled for props/C12.v *)
+Lemma c12_spec :
+  forall (V : Type) (vcmp : V -> V -> res comparison) (vparse : str -> option V)
+         (cmp : V -> V -> comparison) (Vok : V -> Prop),
+  (forall a b, Vok a -> Vok b -> vcmp a b = Ok (cmp a b)) ->
+  forall (t : rtree) (f : list (list (rel V))) (pv : lookup V),
+  tree_field V vparse t = Ok f -> field_dom V Vok f -> lookup_dom V Vok pv ->
+  ll_relations_satisfied_by V vcmp vparse t pv = Ok (satisfied_spec cmp (lookup_version pv) f) /\
+  lossy_relations_satisfied_by V vcmp f pv = Ok (satisfied_spec cmp (lookup_version pv) f).
+Proof.
+  intros V vcmp vparse cmp Vok H t f pv Ht Hf Hp. split.
+  - exact (ll_spec V vcmp vparse cmp Vok H t f pv Ht Hf Hp).
+  - exact (lossy_spec V vcmp cmp Vok H f pv Hf Hp).
+Qed.
+
+Lemma c12_table_in_words :
+  forall (V : Type) (cmp : V -> V -> comparison) (installed : str -> option V) (f : list (list (rel V))),
+  satisfied_spec cmp installed f = true <->
+  Forall (Exists (fun r => exists v, installed (r_name r) = Some v /\
+                           match r_ver r with
+                           | None => True
+                           | Some (OpLt, w) => cmp v w = Lt
+                           | Some (OpLe, w) => cmp v w = Lt \/ cmp v w = Eq
+                           | Some (OpEq, w) => cmp v w = Eq
+                           | Some (OpGe, w) => cmp v w = Gt \/ cmp v w = Eq
+                           | Some (OpGt, w) => cmp v w = Gt
+                           end)) f.
+Proof.
+  intros V cmp installed f. rewrite (satisfied_spec_iff V cmp installed f).
+  rewrite !Forall_forall. split; intros H e He; specialize (H e He); rewrite Exists_exists in *;
+    destruct H as (r & Hr & v & Hv & H); exists r; (split; [exact Hr|]); exists v; (split; [exact Hv|]);
+    destruct (r_ver r) as [[[] w]|]; exact H.
+Qed.
+
+Lemma c12_lookup :
+  forall (V : Type) (vcmp : V -> V -> res comparison) (vparse : str -> option V),
+  (forall (t : rtree) (f : list (list (rel V))) (p q : lookup V),
+     (forall n, lookup_version p n = lookup_version q n) ->
+     ll_relations_satisfied_by V vcmp vparse t p = ll_relations_satisfied_by V vcmp vparse t q /\
+     lossy_relations_satisfied_by V vcmp f p = lossy_relations_satisfied_by V vcmp f q) /\
+  (forall (l : list (str * V)) n, lookup_version (LMap (hm_of_list l)) n = find_last l n) /\
+  (forall (m : list (str * V)) n, lookup_version (LMap m) n = lookup_version (LFn (hm_get m)) n) /\
+  (forall (k : str) (v : V) n,
+     lookup_version (LPair k v) n = lookup_version (LFn (fun n' => if str_eqb n' k then Some v else None)) n /\
+     lookup_version (LPair k v) n = lookup_version (LMap (hm_of_list [(k, v)])) n).
+Proof.
+  intros V vcmp vparse. split; [|split; [|split]].
+  - intros t f p q H. split; [apply ll_sat_ext; exact H|apply lossy_sat_ext; exact H].
+  - apply lookup_map_of_list.
+  - reflexivity.
+  - intros k v n. split; [reflexivity|]. rewrite lookup_map_of_list. cbn [lookup_version find_last].
+    reflexivity.
+Qed.
+
+Lemma c12_order_consequences :
+  forall (V : Type) (cmp : V -> V -> comparison), cmp_ok cmp ->
+  (forall (I J : str -> option V) (f : list (list (rel V))),
+     (forall n, match I n, J n with
+                | Some v, Some v' => cmp v v' = Eq
+                | None, None => True
+                | _, _ => False
+                end) ->
+     satisfied_spec cmp I f = satisfied_spec cmp J f) /\
+  (forall v v' w, cmp v v' <> Gt -> op_holds OpGe (cmp v w) = true -> op_holds OpGe (cmp v' w) = true) /\
+  (forall v v' w, cmp v' v <> Gt -> op_holds OpLe (cmp v w) = true -> op_holds OpLe (cmp v' w) = true) /\
+  (forall c, op_holds OpGe c = negb (op_holds OpLt c) /\ op_holds OpLe c = negb (op_holds OpGt c) /\
+             op_holds OpEq c = op_holds OpLe c && op_holds OpGe c).
+Proof.
+  intros V cmp H. split; [|split; [|split]].
+  - apply spec_equiv_installed. exact H.
+  - apply lower_bound_monotone. exact H.
+  - apply upper_bound_monotone. exact H.
+  - intros c. split; [apply op_ge_not_lt|split; [apply op_le_not_gt|apply op_eq_le_ge]].
+Qed.
+
+Lemma c12_debversion_safe :
+  forall x y, ver_safe x = true -> ver_safe y = true ->
+  ver_cmp x y = Ok (DebVersion.vcmp x y) /\ ver_eq x y = Ok (veq x y).
+Proof. intros x y Hx Hy. split; [apply ver_cmp_safe|apply ver_eq_safe]; assumption. Qed.
+
+Lemma c12_full_refuted :
+  ~ (forall (t : rtree) (f : list (list (rel version))) (pv : lookup version),
+     tree_field version parse_version t = Ok f ->
+     deb_ll_sat t pv = Ok (deb_spec (lookup_version pv) f) /\
+     deb_lossy_sat f pv = Ok (deb_spec (lookup_version pv) f)).
+Proof.
+  intros H.
+  pose (w := mk_version None (s2l "0~2024") None).
+  pose (f := [[mk_rel (s2l "a") (Some (OpGe, w))]]).
+  destruct (build_field_view version parse_version show_version f) as (t & _ & Ht).
+  { repeat constructor. }
+  destruct (H t f (LPair (s2l "a") big_version) Ht) as [_ H2].
+  vm_compute in H2. discriminate.
+Qed.
